@@ -6,6 +6,8 @@ from .values import _byte_type
 from .sym import (TRUE, FALSE, RS, IS, zand, zor, znot, zimp, State, HeapLV)
 from .expr import ERR_TAG
 
+NUMERR_TAG = 0x7FFF0002
+
 BE = "encoding/binary.(bigEndian)."
 LE = "encoding/binary.(littleEndian)."
 
@@ -69,6 +71,47 @@ class LibMixin:
             ev_ = IfaceV(rid(ERR_TAG), o)
             self.wraps[o.as_long()] = wrapped
             return ev_
+        if callee in ("strconv.ParseInt", "strconv.ParseUint", "strconv.ParseFloat", "strconv.ParseBool", "strconv.Atoi"):
+            # deterministic function of the (immutable) string it is given; the numeric semantics of the text is trusted
+            self.models_used.add(callee + " (result is an uninterpreted, deterministic function of the string value and the base/bitSize arguments; "
+                                 "err == nil or a *strconv.NumError)")
+            sv = self.ev(args[0], st)
+            extra = []
+            for a in args[1:]:
+                x = self.ev(a, st)
+                extra.append(x)
+            rt = self.T(e).under().d.get("elems")
+            vt = self.prog.types[rt[0]["t"]]
+            dom = [RS, IS, IS] + [x.sort() for x in extra]
+            key = callee.replace("strconv.", "")
+            vs = scalar_sort(vt)
+            fv = z3.Function("lib_%s_val" % key, *(dom + [vs]))
+            fe = z3.Function("lib_%s_err" % key, *(dom + [RS]))
+            argsv = [sv.rid, sv.off, sv.ln] + extra
+            val = fv(*argsv)
+            eo = fe(*argsv)
+            # error object: 0 = nil; otherwise a pre-existing-style id (never equal to objects allocated here)
+            self.facts.append(z3.ULT(eo, rid(FRESH_BASE)))
+            err = IfaceV(z3.If(eo == rid(0), rid(0), rid(NUMERR_TAG)), eo)
+            return TupleV([val, err])
+        if callee == "errors.As":
+            self.models_used.add("errors.As (deterministic in the error identity; on success stores a non-nil pointer determined by the error)")
+            ev_ = self.ev(args[0], st)
+            tgt = self.ev(args[1], st)   # pointer to the target variable
+            tt = self.T(args[1]).elem()
+            ok = z3.Function("lib_errors_as_%d" % tt.id, RS, RS, z3.BoolSort())(ev_.tag, ev_.oid)
+            ok = z3.And(ev_.tag != rid(0), ok)
+            if tt.under().k != "ptr":
+                raise Unsupported("errors.As target of non-pointer type")
+            found = z3.Function("lib_errors_as_val_%d" % tt.id, RS, RS, RS)(ev_.tag, ev_.oid)
+            self.facts.append(z3.And(found != rid(0), z3.ULT(found, rid(FRESH_BASE))))
+            lv = self.deref_lv(tgt, tt)
+            cur = lv.get(self, st)
+            saved = self.frame_spec
+            self.frame_spec = None
+            lv.set(self, st, PtrV(z3.If(ok, found, cur.oid), tt.elem()))
+            self.frame_spec = saved
+            return ok
         if callee == "errors.Is":
             self.models_used.add("errors.Is (identity or recorded %w chain)")
             a = self.ev(args[0], st)
@@ -194,5 +237,5 @@ class LibMixin:
         return zand(a.tag != rid(0), zor(*alts))
 
 
-LIB_PURE = {"slices.Grow", "sync.(*Once).Do", "errors.New", "fmt.Errorf", "errors.Is", "bytes.Clone", "slices.Clone", "math.Float64bits", "math.Float64frombits",
+LIB_PURE = {"strconv.ParseInt", "strconv.ParseUint", "strconv.ParseFloat", "strconv.ParseBool", "strconv.Atoi", "errors.As", "slices.Grow", "sync.(*Once).Do", "errors.New", "fmt.Errorf", "errors.Is", "bytes.Clone", "slices.Clone", "math.Float64bits", "math.Float64frombits",
             "math.Float32bits", "math.Float32frombits"}
